@@ -8,4 +8,613 @@ import TickitModel.Props.C06
 
 namespace Tickit.Det
 
+open Tickit
+
+set_option linter.unusedSectionVars false
+
+variable {Val : Type} [DecidableEq Val]
+
+/-! ### unfolding `afterTick` -/
+
+theorem afterTick_nil (st : FlatSt Val) (dev : DevFn Val) : st.afterTick dev [] = st := rfl
+
+theorem afterTick_cons_dispatch (st : FlatSt Val) (dev : DevFn Val) (d : Dispatch Val)
+    (tr : List (Ev Val)) :
+    st.afterTick dev (Ev.dispatch d :: tr) = (st.absorb dev d).afterTick dev tr := rfl
+
+theorem afterTick_cons_answer (st : FlatSt Val) (dev : DevFn Val) (a : Comp)
+    (ch : List (Port × Val)) (tr : List (Ev Val)) :
+    st.afterTick dev (Ev.answer a ch :: tr) = st.afterTick dev tr := rfl
+
+/-! ### C04: what a tick adds to the observation log and to the wakeups -/
+
+/-- an observation present after a tick was there before or stems from an `Input` of the tick. -/
+theorem mem_obs_afterTick {st : FlatSt Val} {dev : DevFn Val} {tr : List (Ev Val)}
+    {o : Comp × SimTime × List (Port × Val)} (h : o ∈ (st.afterTick dev tr).obs) :
+    o ∈ st.obs ∨ ∃ c t ins, Ev.dispatch (.input c t ins) ∈ tr ∧ o.2.1 = t := by
+  induction tr generalizing st with
+  | nil => exact Or.inl h
+  | cons e tr ih =>
+    cases e with
+    | answer a ch =>
+      rw [afterTick_cons_answer] at h
+      rcases ih h with h | ⟨c, t, ins, hm, ht⟩
+      · exact Or.inl h
+      · exact Or.inr ⟨c, t, ins, List.mem_cons_of_mem _ hm, ht⟩
+    | dispatch d =>
+      rw [afterTick_cons_dispatch] at h
+      rcases ih h with h | ⟨c, t, ins, hm, ht⟩
+      · cases d with
+        | skip c t => exact Or.inl h
+        | input c t ins =>
+          simp only [FlatSt.absorb, List.mem_append, List.mem_singleton] at h
+          rcases h with h | rfl
+          · exact Or.inl h
+          · exact Or.inr ⟨c, t, ins, by simp, rfl⟩
+      · exact Or.inr ⟨c, t, ins, List.mem_cons_of_mem _ hm, ht⟩
+
+/-- a wakeup present after a tick was there before or was requested by a device updated in
+the tick. -/
+theorem wake_afterTick_cases {st : FlatSt Val} {dev : DevFn Val} {tr : List (Ev Val)} {c : Comp}
+    {x : SimTime} (h : alookup (st.afterTick dev tr).wake c = some x) :
+    alookup st.wake c = some x ∨
+      ∃ t ins given, Ev.dispatch (.input c t ins) ∈ tr ∧ (dev c t given).callAt = some x := by
+  induction tr generalizing st with
+  | nil => exact Or.inl h
+  | cons e tr ih =>
+    cases e with
+    | answer a ch =>
+      rw [afterTick_cons_answer] at h
+      rcases ih h with h | ⟨t, ins, g, hm, ht⟩
+      · exact Or.inl h
+      · exact Or.inr ⟨t, ins, g, List.mem_cons_of_mem _ hm, ht⟩
+    | dispatch d =>
+      rw [afterTick_cons_dispatch] at h
+      rcases ih h with h | ⟨t, ins, g, hm, ht⟩
+      · cases d with
+        | skip c' t => exact Or.inl h
+        | input c' t ins =>
+          simp only [FlatSt.absorb] at h
+          split at h
+          · rename_i x' hx'
+            rw [addWakeup_lookup] at h
+            by_cases hcc : c = c'
+            · subst hcc
+              rw [if_pos rfl] at h
+              exact Or.inr ⟨t, ins, _, by simp, hx'.trans h⟩
+            · rw [if_neg hcc] at h
+              exact Or.inl h
+          · exact Or.inl h
+      · exact Or.inr ⟨t, ins, g, List.mem_cons_of_mem _ hm, ht⟩
+
+theorem uniqueKeys_wake_absorb {st : FlatSt Val} (dev : DevFn Val) (d : Dispatch Val)
+    (h : UniqueKeys st.wake) : UniqueKeys (st.absorb dev d).wake := by
+  cases d with
+  | skip c t => exact h
+  | input c t ins =>
+    simp only [FlatSt.absorb]
+    split
+    · exact addWakeup_unique _ h _ _
+    · exact h
+
+theorem uniqueKeys_wake_afterTick {st : FlatSt Val} (dev : DevFn Val) (tr : List (Ev Val))
+    (h : UniqueKeys st.wake) : UniqueKeys (st.afterTick dev tr).wake := by
+  induction tr generalizing st with
+  | nil => exact h
+  | cons e tr ih =>
+    cases e with
+    | answer a ch => exact ih h
+    | dispatch d => exact ih (uniqueKeys_wake_absorb dev d h)
+
+theorem tickRun_uniqueKeys {w : Wiring} {dev : DevFn Val} {st st' : FlatSt Val} {t : SimTime}
+    {roots : List Comp} (hrun : TickRun w dev st t roots st') (h : UniqueKeys st.wake) :
+    UniqueKeys st'.wake := by
+  obtain ⟨s, _, _, rfl⟩ := hrun
+  exact uniqueKeys_wake_afterTick dev s.trace h
+
+/-- the wakeups of every reachable state of a flat run form a dict. -/
+theorem flatRun_uniqueKeys {w : Wiring} {devs : DevSeq Val} {t0 : SimTime} {n : Nat}
+    {st : FlatSt Val} {times : List SimTime} (hrun : FlatRun w devs t0 n st times) :
+    UniqueKeys st.wake := by
+  induction hrun with
+  | initial h => exact tickRun_uniqueKeys h (by simp [UniqueKeys])
+  | tick _ _ h ih => exact tickRun_uniqueKeys h (delWakeups_unique _ ih _)
+
+/-- after a tick at `t` every wakeup is an old one or at/after `t`. -/
+theorem tickRun_wake_ge {w : Wiring} {dev : DevFn Val} {st st' : FlatSt Val} {t : SimTime}
+    {roots : List Comp} (hpast : ∀ c t ins x, (dev c t ins).callAt = some x → t ≤ x)
+    (hrun : TickRun w dev st t roots st') {c : Comp} {x : SimTime}
+    (h : alookup st'.wake c = some x) : alookup st.wake c = some x ∨ t ≤ x := by
+  obtain ⟨s, hs, _, rfl⟩ := hrun
+  rcases wake_afterTick_cases h with h | ⟨t', ins, g, hm, hx⟩
+  · exact Or.inl h
+  · have := (hs.inv.pre.disp_ext _ hm).2
+    simp only [Dispatch.time] at this
+    subst this
+    exact Or.inr (hpast _ _ _ _ hx)
+
+/-- invariant of a flat run: the wakeups are a dict whose entries are all at or after the
+latest tick time. -/
+theorem flatRun_wake_ge {w : Wiring} {devs : DevSeq Val}
+    (hpast : ∀ k c t ins x, ((devs k) c t ins).callAt = some x → t ≤ x)
+    {t0 : SimTime} {n : Nat} {st : FlatSt Val} {times : List SimTime}
+    (hrun : FlatRun w devs t0 n st times) :
+    ∃ tl rest, times = tl :: rest ∧ ∀ c t, alookup st.wake c = some t → tl ≤ t := by
+  cases hrun with
+  | initial h =>
+    refine ⟨t0, [], rfl, fun c t hc => ?_⟩
+    rcases tickRun_wake_ge (hpast 0) h hc with h' | h'
+    · simp at h'
+    · exact h'
+  | @tick n st0 _ times0 cs m hprev hf h =>
+    refine ⟨m, times0, rfl, fun c t hc => ?_⟩
+    rcases tickRun_wake_ge (hpast (n + 1)) h hc with h' | h'
+    · exact Int.le_of_lt (served_then_later _ (flatRun_uniqueKeys hprev) cs m hf c t h')
+    · exact h'
+
+/-! ### C08, part 0: association-list facts -/
+
+theorem mapEq_aupdate_left {κ β : Type} [DecidableEq κ] {a b : List (κ × β)} (h : MapEq a b)
+    (o : List (κ × β)) : MapEq (aupdate a o) (aupdate b o) := by
+  intro x
+  rw [alookup_aupdate a, alookup_aupdate b, h x]
+
+theorem mapEq_aupdate {κ β : Type} [DecidableEq κ] {a b i1 i2 : List (κ × β)} (h : MapEq a b)
+    (hn1 : (akeys i1).Nodup) (hn2 : (akeys i2).Nodup) (hi : MapEq i1 i2) :
+    MapEq (aupdate a i1) (aupdate b i2) := by
+  intro x
+  rw [alookup_aupdate_of_nodup a hn1, alookup_aupdate_of_nodup b hn2, h x, hi x]
+
+theorem outChanges_congr {l1 l2 : List (Port × Val)} (h : MapEq l1 l2) (outs : List (Port × Val)) :
+    outChanges l1 outs = outChanges l2 outs := by
+  unfold outChanges
+  congr 1
+  funext kv
+  rw [h kv.1]
+
+theorem nodup_akeys_filter {κ β : Type} {m : List (κ × β)} (hn : (akeys m).Nodup)
+    (p : κ × β → Bool) : (akeys (m.filter p)).Nodup := by
+  unfold akeys at *
+  exact hn.sublist (List.Sublist.map _ List.filter_sublist)
+
+theorem nodup_akeys_normDict (items : List (Port × Val)) : (akeys (normDict items)).Nodup :=
+  nodup_akeys_aupdate (m := []) (by simp) items
+
+/-! ### C08, part 1: the reaction function of a flat state -/
+
+/-- reactions depend on the input changes as a mapping, for changes that are dicts -/
+def ReactExtN (react : React Val) : Prop :=
+  ∀ c i1 i2, (akeys i1).Nodup → (akeys i2).Nodup → MapEq i1 i2 → react c i1 = react c i2
+
+theorem react_wf (st : FlatSt Val) (dev : DevFn Val) (t : SimTime) : ReactWF (st.react dev t) := by
+  intro c ins
+  exact nodup_akeys_filter (nodup_akeys_normDict _) _
+
+theorem react_extN (st : FlatSt Val) {dev : DevFn Val} (hdev : DevExt dev) (t : SimTime) :
+    ReactExtN (st.react dev t) := by
+  intro c i1 i2 h1 h2 hi
+  simp only [FlatSt.react, DevComp.merge]
+  rw [hdev c t _ _ (mapEq_aupdate (fun _ => rfl) h1 h2 hi)]
+
+/-- states that agree on inputs and last outputs as mappings react identically. -/
+theorem react_congr {a b : FlatSt Val} {dev : DevFn Val} (hdev : DevExt dev) (t : SimTime)
+    (h : ∀ c, MapEq (a.comp c).deviceInputs (b.comp c).deviceInputs ∧
+      MapEq (a.comp c).lastOutputs (b.comp c).lastOutputs) :
+    a.react dev t = b.react dev t := by
+  funext c ins
+  simp only [FlatSt.react, DevComp.merge]
+  rw [hdev c t _ _ (mapEq_aupdate_left (h c).1 ins), outChanges_congr (h c).2]
+
+/-! ### C08, part 2: the changes carried by an `Input` form a dict -/
+
+def InsNodup : Dispatch Val → Prop
+  | .input _ _ ins => (akeys ins).Nodup
+  | .skip _ _ => True
+
+/-- every per-component accumulator is a dict, and so are the changes of every dispatch. -/
+def InsInv (inputs : List (Comp × List (Port × Val))) (tr : List (Ev Val)) : Prop :=
+  (∀ c, (akeys (agetD inputs c [])).Nodup) ∧ ∀ d, Ev.dispatch d ∈ tr → InsNodup d
+
+theorem insNodup_decide {tk : Ticker Val} (h : ∀ c, (akeys (agetD tk.inputs c [])).Nodup)
+    (c : Comp) : InsNodup (tk.decide c) := by
+  rcases tk.decide_cases c with ⟨h1, _⟩ | ⟨h1, _⟩
+  · rw [h1]; exact h c
+  · rw [h1]; trivial
+
+theorem InsInv.schedule {w : Wiring} {tk : Ticker Val} {tr : List (Ev Val)}
+    {l : List (Comp × Bool)} {ds : List (Dispatch Val)} (h : InsInv tk.inputs tr)
+    (hs : Ticker.scheduleLoop w tk l = .ok ds) : InsInv tk.inputs (tr ++ ds.map Ev.dispatch) := by
+  obtain ⟨hspec, _⟩ := scheduleLoop_spec hs
+  refine ⟨h.1, fun d hd => ?_⟩
+  rcases List.mem_append.1 hd with hd | hd
+  · exact h.2 d hd
+  · simp only [List.mem_map, Ev.dispatch.injEq, exists_eq_right] at hd
+    rw [hspec] at hd
+    obtain ⟨e, _, rfl⟩ := List.mem_map.1 hd
+    exact insNodup_decide h.1 e.1
+
+theorem InsInv.answer {w : Wiring} (hw : RouterOK w) {inputs : List (Comp × List (Port × Val))}
+    {tr : List (Ev Val)} (h : InsInv inputs tr) (src : Comp) (chs : List (Port × Val)) :
+    InsInv (addInputs inputs (w.route src chs)) (tr ++ [Ev.answer src chs]) := by
+  refine ⟨fun c => ?_, fun d hd => ?_⟩
+  · rw [agetD_addInputs _ (hw.route_wf src chs).1]
+    exact nodup_akeys_aupdate (h.1 c) _
+  · simp only [List.mem_append, List.mem_singleton, reduceCtorEq, or_false] at hd
+    exact h.2 d hd
+
+theorem reachable_insInv {w : Wiring} (hw : RouterOK w) {react : React Val} {t : SimTime}
+    {roots : List Comp} {s : TickSys Val} (hs : s.Reachable w react t roots) :
+    InsInv s.tk.inputs s.trace := by
+  induction hs with
+  | init h =>
+    obtain ⟨ds, hsl, _, _, _, _, htr⟩ := TickSys.init_eq_ok h
+    obtain ⟨_, hin⟩ := TickSys.init_tk h
+    have h0 : InsInv (Ticker.startTick w t roots : Ticker Val).inputs [] :=
+      ⟨fun c => by simp [Ticker.startTick, agetD], by simp⟩
+    have := h0.schedule hsl
+    rw [hin, htr]
+    simpa [Ticker.startTick] using this
+  | step _ h ih =>
+    obtain ⟨d, ds, hd, _, _, hsl, _, _, _, _, htr⟩ := TickSys.step_eq_ok h
+    obtain ⟨_, hin⟩ := TickSys.step_tk h hd
+    have := InsInv.schedule (tk := _root_.Tickit.Ticker.afterAnswer w _ d.comp (answerOf react d))
+      (ih.answer hw d.comp (answerOf react d)) hsl
+    rw [hin, htr]
+    exact this
+
+/-! ### C08, part 3: the extent depends on the roots as a set -/
+
+theorem mem_akeys_foldl_upsert (cs : List Comp) (tu : List (Comp × Bool)) (x : Comp) :
+    x ∈ akeys (cs.foldl (fun acc c => upsert acc c false) tu) ↔ x ∈ akeys tu ∨ x ∈ cs := by
+  induction cs generalizing tu with
+  | nil => simp
+  | cons c cs ih =>
+    rw [List.foldl_cons, ih, mem_akeys_upsert, List.mem_cons]
+    constructor
+    · rintro ((h | h) | h)
+      · exact Or.inr (Or.inl h)
+      · exact Or.inl h
+      · exact Or.inr (Or.inr h)
+    · rintro (h | h | h)
+      · exact Or.inl (Or.inr h)
+      · exact Or.inl (Or.inl h)
+      · exact Or.inr h
+
+theorem mem_extent_iff (w : Wiring) (roots : List Comp) (x : Comp) :
+    x ∈ extent w roots ↔ ∃ r ∈ roots, x ∈ w.dependants r := by
+  suffices h : ∀ (rs : List Comp) (tu : List (Comp × Bool)),
+      x ∈ akeys (rs.foldl (fun acc r => (w.dependants r).foldl (fun acc c => upsert acc c false) acc) tu) ↔
+        x ∈ akeys tu ∨ ∃ r ∈ rs, x ∈ w.dependants r by
+    have := h roots []
+    simpa [extent, Ticker.startTick] using this
+  intro rs
+  induction rs with
+  | nil => simp
+  | cons r rs ih =>
+    intro tu
+    rw [List.foldl_cons, ih, mem_akeys_foldl_upsert]
+    simp only [List.mem_cons, exists_eq_or_imp, or_assoc]
+
+theorem extent_congr (w : Wiring) {roots roots' : List Comp} (h : ∀ c, c ∈ roots ↔ c ∈ roots')
+    (x : Comp) : x ∈ extent w roots ↔ x ∈ extent w roots' := by
+  rw [mem_extent_iff, mem_extent_iff]
+  constructor
+  · rintro ⟨r, hr, hx⟩; exact ⟨r, (h r).1 hr, hx⟩
+  · rintro ⟨r, hr, hx⟩; exact ⟨r, (h r).2 hr, hx⟩
+
+/-! ### C08, part 4: schedule independence of one tick, for root lists equal as sets -/
+
+theorem equiv_answerOf_eq {react : React Val} (hext : ReactExtN react) {d1 d2 : Dispatch Val}
+    (h : Dispatch.Equiv d1 d2) (h1 : InsNodup d1) (h2 : InsNodup d2) :
+    answerOf react d1 = answerOf react d2 := by
+  cases d1 <;> cases d2 <;> simp only [Dispatch.Equiv] at h
+  · obtain ⟨rfl, _, h⟩ := h
+    exact hext _ _ _ h1 h2 h
+  · rfl
+
+theorem sameDispatch_answer {react : React Val} (hext : ReactExtN react) {tr1 tr2 : List (Ev Val)}
+    (hn1 : ∀ d, Ev.dispatch d ∈ tr1 → InsNodup d) (hn2 : ∀ d, Ev.dispatch d ∈ tr2 → InsNodup d)
+    {a : Comp} (h : SameDispatch (dispatchOf tr1 a) (dispatchOf tr2 a)) :
+    (dispatchOf tr1 a).map (answerOf react) = (dispatchOf tr2 a).map (answerOf react) := by
+  cases h1 : dispatchOf tr1 a with
+  | none =>
+    cases h2 : dispatchOf tr2 a with
+    | none => rfl
+    | some d2 => rw [h1, h2] at h; exact h.elim
+  | some d1 =>
+    cases h2 : dispatchOf tr2 a with
+    | none => rw [h1, h2] at h; exact h.elim
+    | some d2 =>
+      rw [h1, h2] at h
+      simp only [Option.map_some, Option.some.injEq]
+      exact equiv_answerOf_eq hext h (hn1 _ (dispatchOf_eq_some h1).1) (hn2 _ (dispatchOf_eq_some h2).1)
+
+theorem fed_of_answer_eq {w : Wiring} {react : React Val} {tr1 tr2 : List (Ev Val)} {c : Comp}
+    (h : ∀ a p q, w.Conn a p c q →
+      (dispatchOf tr1 a).map (answerOf react) = (dispatchOf tr2 a).map (answerOf react))
+    {q : Port} {v : Val} (hf : Fed w react tr1 c q v) : Fed w react tr2 c q v := by
+  obtain ⟨a, p, d, hconn, hd, hv⟩ := hf
+  have := h a p q hconn
+  rw [hd, Option.map_some] at this
+  obtain ⟨d', hd', he⟩ := Option.map_eq_some_iff.1 this.symm
+  exact ⟨a, p, d', hconn, hd', he ▸ hv⟩
+
+/-- **schedule independence of one tick**, for two root lists with the same members and
+reactions that are extensional on dicts. -/
+theorem sameDispatch_of_complete' {w : Wiring} (hw : RouterOK w) (hacyc : w.Acyclic)
+    {react : React Val} (hr : ReactWF react) (hext : ReactExtN react) {t : SimTime}
+    {roots roots' : List Comp} (hroots : ∀ c, c ∈ roots ↔ c ∈ roots') {s1 s2 : TickSys Val}
+    (h1 : s1.Reachable w react t roots) (h2 : s2.Reachable w react t roots')
+    (hf1 : s1.tk.toUpdate = []) (hf2 : s2.tk.toUpdate = [])
+    (c : Comp) : SameDispatch (dispatchOf s1.trace c) (dispatchOf s2.trace c) := by
+  obtain ⟨rank, hrank⟩ := hacyc
+  have hn1 := (reachable_insInv hw h1).2
+  have hn2 := (reachable_insInv hw h2).2
+  suffices key : ∀ n c, rank c < n →
+      SameDispatch (dispatchOf s1.trace c) (dispatchOf s2.trace c) from
+    key _ c (Nat.lt_succ_self _)
+  intro n
+  induction n with
+  | zero => intro c hc; omega
+  | succ n ih =>
+    intro c hc
+    cases h1c : dispatchOf s1.trace c with
+    | none =>
+      have hce := (dispatchOf_eq_none_iff_of_complete hw hr h1 hf1 c).1 h1c
+      rw [(dispatchOf_eq_none_iff_of_complete hw hr h2 hf2 c).2
+        (fun h => hce ((extent_congr w hroots c).2 h))]
+      trivial
+    | some d1 =>
+      obtain ⟨hce, ⟨us, hus⟩, hsp1⟩ := dispatch_spec hw hr h1 h1c
+      cases h2c : dispatchOf s2.trace c with
+      | none =>
+        exact absurd ((extent_congr w hroots c).1 hce)
+          ((dispatchOf_eq_none_iff_of_complete hw hr h2 hf2 c).1 h2c)
+      | some d2 =>
+        obtain ⟨_, _, hsp2⟩ := dispatch_spec hw hr h2 h2c
+        have hP : ∀ a p q, w.Conn a p c q →
+            (dispatchOf s1.trace a).map (answerOf react) =
+              (dispatchOf s2.trace a).map (answerOf react) := by
+          intro a p q hconn
+          have := hrank c us a hus ((hw.ups_edge c us hus a).2 ⟨p, q, hconn⟩)
+          exact sameDispatch_answer hext hn1 hn2 (ih a (by omega))
+        have hfed : ∀ q v, Fed w react s1.trace c q v ↔ Fed w react s2.trace c q v :=
+          fun q v => ⟨fed_of_answer_eq hP, fed_of_answer_eq (fun a p q h => (hP a p q h).symm)⟩
+        rcases hsp1 with ⟨i1, rfl, hr1, hi1⟩ | ⟨rfl, hnr1, hno1⟩ <;>
+          rcases hsp2 with ⟨i2, rfl, hr2, hi2⟩ | ⟨rfl, hnr2, hno2⟩
+        · exact ⟨rfl, rfl, fun q => option_ext_some (fun v =>
+            (hi1 q v).trans ((hfed q v).trans (hi2 q v).symm))⟩
+        · rcases hr1 with hr1 | ⟨q, v, hr1⟩
+          · exact absurd ((hroots c).1 hr1) hnr2
+          · exact absurd ((hfed q v).1 hr1) (hno2 q v)
+        · rcases hr2 with hr2 | ⟨q, v, hr2⟩
+          · exact absurd ((hroots c).2 hr2) hnr1
+          · exact absurd ((hfed q v).2 hr2) (hno1 q v)
+        · exact ⟨rfl, rfl⟩
+
+/-! ### C08, part 5: the effect of a tick on one component -/
+
+/-- the part of a flat state that belongs to one component: its state, its pending wakeup and
+its observations. -/
+structure Loc (Val : Type) where
+  dc : DevComp Val
+  wk : Option SimTime
+  ob : List (SimTime × List (Port × Val))
+
+def loc (st : FlatSt Val) (c : Comp) : Loc Val := ⟨st.comp c, alookup st.wake c, st.obsOf c⟩
+
+/-- the effect on `c` of the dispatch (if any) `c` received in a tick. -/
+def Loc.absorb (dev : DevFn Val) (c : Comp) (L : Loc Val) : Option (Dispatch Val) → Loc Val
+  | some (.input _ t ins) =>
+    ⟨⟨L.dc.merge ins, normDict (dev c t (L.dc.merge ins)).outs⟩,
+      match (dev c t (L.dc.merge ins)).callAt with
+      | some x => some x
+      | none => L.wk,
+      L.ob ++ [(t, L.dc.merge ins)]⟩
+  | some (.skip _ _) => L
+  | none => L
+
+theorem loc_absorb_ne (st : FlatSt Val) (dev : DevFn Val) {d : Dispatch Val} {c : Comp}
+    (h : d.comp ≠ c) : loc (st.absorb dev d) c = loc st c := by
+  cases d with
+  | skip c' t => rfl
+  | input c' t ins =>
+    simp only [Dispatch.comp] at h
+    simp only [loc, FlatSt.absorb, Loc.mk.injEq]
+    refine ⟨?_, ?_, ?_⟩
+    · simp only [FlatSt.comp, agetD, alookup_upsert, if_neg h]
+    · split
+      · rw [addWakeup_lookup, if_neg (Ne.symm h)]
+      · rfl
+    · simp [FlatSt.obsOf, List.filter_append, h]
+
+theorem loc_absorb_eq (st : FlatSt Val) (dev : DevFn Val) {d : Dispatch Val} {c : Comp}
+    (h : d.comp = c) : loc (st.absorb dev d) c = (loc st c).absorb dev c (some d) := by
+  cases d with
+  | skip c' t => rfl
+  | input c' t ins =>
+    simp only [Dispatch.comp] at h
+    subst h
+    simp only [loc, FlatSt.absorb, Loc.absorb, Loc.mk.injEq]
+    refine ⟨?_, ?_, ?_⟩
+    · simp [FlatSt.comp, agetD, alookup_upsert]
+    · split
+      · rename_i x hx
+        rw [addWakeup_lookup, if_pos rfl]
+        simp only [FlatSt.comp] at hx ⊢
+        rw [hx]
+      · rename_i hx
+        simp only [FlatSt.comp] at hx ⊢
+        rw [hx]
+    · simp [FlatSt.obsOf, List.filter_append]
+
+/-- with at most one dispatch per component, the state of `c` after a tick is its state
+before, transformed by the dispatch `c` received. -/
+theorem loc_afterTick (dev : DevFn Val) {tr : List (Ev Val)}
+    (hcount : ∀ c, (tr.filter (Ev.isDispatchOf c)).length ≤ 1) (st : FlatSt Val) (c : Comp) :
+    loc (st.afterTick dev tr) c = (loc st c).absorb dev c (dispatchOf tr c) := by
+  induction tr generalizing st with
+  | nil => rfl
+  | cons e tr ih =>
+    cases e with
+    | answer a ch =>
+      rw [afterTick_cons_answer, dispatchOf_cons_answer]
+      exact ih (fun c' => by simpa [Ev.isDispatchOf] using hcount c') st
+    | dispatch d =>
+      have htail : ∀ c', (tr.filter (Ev.isDispatchOf c')).length ≤ 1 := by
+        intro c'
+        have := hcount c'
+        rw [List.filter_cons] at this
+        split at this
+        · simp only [List.length_cons] at this; omega
+        · exact this
+      rw [afterTick_cons_dispatch, dispatchOf_cons_dispatch, ih htail]
+      by_cases hc : d.comp = c
+      · rw [if_pos hc]
+        have hnone : dispatchOf tr c = none := by
+          rw [dispatchOf_eq_none_iff]
+          intro d' hd' hdc
+          have := hcount c
+          rw [List.filter_cons, if_pos (by simp [Ev.isDispatchOf, hc])] at this
+          have h0 : (tr.filter (Ev.isDispatchOf c)).length = 0 := by
+            simp only [List.length_cons] at this; omega
+          have hm : Ev.dispatch d' ∈ tr.filter (Ev.isDispatchOf c) :=
+            List.mem_filter.2 ⟨hd', by simp [Ev.isDispatchOf, hdc]⟩
+          rw [List.length_eq_zero_iff.1 h0] at hm
+          simp at hm
+        rw [hnone, loc_absorb_eq st dev hc]
+        rfl
+      · rw [if_neg hc, loc_absorb_ne st dev hc]
+
+/-! observation sequences -/
+
+theorem obsEq_append {a b a' b' : List (SimTime × List (Port × Val))} (h : ObsEq a b)
+    (h' : ObsEq a' b') : ObsEq (a ++ a') (b ++ b') := by
+  induction a generalizing b with
+  | nil =>
+    cases b with
+    | nil => exact h'
+    | cons y b => simp [ObsEq] at h
+  | cons x a ih =>
+    cases b with
+    | nil => simp [ObsEq] at h
+    | cons y b =>
+      obtain ⟨t1, i1⟩ := x
+      obtain ⟨t2, i2⟩ := y
+      simp only [ObsEq, List.cons_append] at h ⊢
+      exact ⟨h.1, h.2.1, ih h.2.2⟩
+
+/-- local equivalence of two states at one component -/
+structure Loc.Equiv (L1 L2 : Loc Val) : Prop where
+  ins : MapEq L1.dc.deviceInputs L2.dc.deviceInputs
+  outs : MapEq L1.dc.lastOutputs L2.dc.lastOutputs
+  wk : L1.wk = L2.wk
+  ob : ObsEq L1.ob L2.ob
+
+/-- equivalent dispatches take equivalent local states to equivalent local states. -/
+theorem Loc.Equiv.absorb {dev : DevFn Val} (hdev : DevExt dev) (c : Comp) {L1 L2 : Loc Val}
+    (h : L1.Equiv L2) {o1 o2 : Option (Dispatch Val)} (ho : SameDispatch o1 o2)
+    (hn1 : ∀ d, o1 = some d → InsNodup d) (hn2 : ∀ d, o2 = some d → InsNodup d) :
+    (L1.absorb dev c o1).Equiv (L2.absorb dev c o2) := by
+  cases o1 with
+  | none =>
+    cases o2 with
+    | none => exact h
+    | some d2 => exact ho.elim
+  | some d1 =>
+    cases o2 with
+    | none => exact ho.elim
+    | some d2 =>
+      have hd1 := hn1 d1 rfl
+      have hd2 := hn2 d2 rfl
+      cases d1 with
+      | skip c1 t1 =>
+        cases d2 with
+        | skip c2 t2 => exact h
+        | input c2 t2 i2 => exact ho.elim
+      | input c1 t1 i1 =>
+        cases d2 with
+        | skip c2 t2 => exact ho.elim
+        | input c2 t2 i2 =>
+          obtain ⟨_, rfl, hi⟩ : c1 = c2 ∧ t1 = t2 ∧ ∀ q, alookup i1 q = alookup i2 q := ho
+          have hg : MapEq (L1.dc.merge i1) (L2.dc.merge i2) := mapEq_aupdate h.ins hd1 hd2 hi
+          have hr := hdev c t1 _ _ hg
+          simp only [Loc.absorb]
+          refine ⟨hg, ?_, ?_, obsEq_append h.ob ?_⟩
+          · rw [hr]; exact fun _ => rfl
+          · simp only [hr, h.wk]
+          · exact ⟨rfl, hg, trivial⟩
+
+/-- **one tick**, local form: from locally equivalent states, two complete runs of the same
+tick (any answer orders, root lists equal as sets) end in locally equivalent states. -/
+theorem tickRun_loc_equiv {w : Wiring} (hw : RouterOK w) (hacyc : w.Acyclic) {dev : DevFn Val}
+    (hdev : DevExt dev) {a b a' b' : FlatSt Val} {t : SimTime} {roots roots' : List Comp}
+    (hroots : ∀ c, c ∈ roots ↔ c ∈ roots')
+    (hab : ∀ c, (loc a c).Equiv (loc b c)) (ha : TickRun w dev a t roots a')
+    (hb : TickRun w dev b t roots' b') (c : Comp) : (loc a' c).Equiv (loc b' c) := by
+  obtain ⟨s1, h1, hf1, rfl⟩ := ha
+  obtain ⟨s2, h2, hf2, rfl⟩ := hb
+  have hre : b.react dev t = a.react dev t :=
+    (react_congr hdev t (fun c => ⟨(hab c).ins, (hab c).outs⟩)).symm
+  rw [hre] at h2
+  have hsame := sameDispatch_of_complete' hw hacyc (react_wf a dev t) (react_extN a hdev t)
+    hroots h1 h2 hf1 hf2 c
+  rw [loc_afterTick dev (fun c => (h1.inv.pre.count c).1),
+    loc_afterTick dev (fun c => (h2.inv.pre.count c).1)]
+  exact (hab c).absorb hdev c hsame
+    (fun d hd => (reachable_insInv hw h1).2 d (dispatchOf_eq_some hd).1)
+    (fun d hd => (reachable_insInv hw h2).2 d (dispatchOf_eq_some hd).1)
+
+/-! ### C08, part 6: many ticks -/
+
+theorem obsEq_refl (l : List (SimTime × List (Port × Val))) : ObsEq l l := by
+  induction l with
+  | nil => trivial
+  | cons x l ih =>
+    obtain ⟨t, i⟩ := x
+    exact ⟨rfl, fun _ => rfl, ih⟩
+
+/-- `get_first_wakeups` of two dicts that are equal as mappings: same time, same components. -/
+theorem firstWakeups_congr {w1 w2 : Wakeups} (h1 : UniqueKeys w1) (h2 : UniqueKeys w2)
+    (h : MapEq w1 w2) {cs1 cs2 : List Comp} {m1 m2 : SimTime}
+    (hf1 : firstWakeups w1 = (cs1, some m1)) (hf2 : firstWakeups w2 = (cs2, some m2)) :
+    m1 = m2 ∧ ∀ c, c ∈ cs1 ↔ c ∈ cs2 := by
+  obtain ⟨hc1, hle1, ⟨x1, hx1⟩, _⟩ := firstWakeups_spec w1 h1 cs1 m1 hf1
+  obtain ⟨hc2, hle2, ⟨x2, hx2⟩, _⟩ := firstWakeups_spec w2 h2 cs2 m2 hf2
+  have hm : m1 = m2 :=
+    Int.le_antisymm (hle1 x2 m2 ((h x2).trans hx2)) (hle2 x1 m1 ((h x1).symm.trans hx1))
+  subst hm
+  exact ⟨rfl, fun c => by rw [hc1, hc2, h c]⟩
+
+/-- **C08**, local form. -/
+theorem flatRun_loc_equiv {w : Wiring} (hw : RouterOK w) (hacyc : w.Acyclic) {devs : DevSeq Val}
+    (hdev : ∀ k, DevExt (devs k)) {t0 : SimTime} {n : Nat} {st1 : FlatSt Val}
+    {times1 : List SimTime} (h1 : FlatRun w devs t0 n st1 times1) :
+    ∀ {st2 : FlatSt Val} {times2 : List SimTime}, FlatRun w devs t0 n st2 times2 →
+      times1 = times2 ∧ ∀ c, (loc st1 c).Equiv (loc st2 c) := by
+  induction h1 with
+  | initial hr1 =>
+    intro st2 times2 h2
+    cases h2 with
+    | initial hr2 =>
+      refine ⟨rfl, tickRun_loc_equiv hw hacyc (hdev 0) (fun _ => Iff.rfl) (fun c => ?_) hr1 hr2⟩
+      exact ⟨fun _ => rfl, fun _ => rfl, rfl, obsEq_refl _⟩
+  | @tick n sa sa' timesa csa ma hpa hfa hra ih =>
+    intro st2 times2 h2
+    cases h2 with
+    | @tick _ sb _ timesb csb mb hpb hfb hrb =>
+      obtain ⟨hti, hloc⟩ := ih hpb
+      have hua := flatRun_uniqueKeys hpa
+      have hub := flatRun_uniqueKeys hpb
+      obtain ⟨hm, hcs⟩ := firstWakeups_congr hua hub (fun c => (hloc c).wk) hfa hfb
+      subst hm
+      refine ⟨by rw [hti], tickRun_loc_equiv hw hacyc (hdev (n + 1)) hcs (fun c => ?_) hra hrb⟩
+      refine ⟨(hloc c).ins, (hloc c).outs, ?_, (hloc c).ob⟩
+      show alookup (delWakeups sa.wake csa) c = alookup (delWakeups sb.wake csb) c
+      rw [delWakeups_lookup _ hua, delWakeups_lookup _ hub]
+      by_cases hc : c ∈ csa
+      · rw [if_pos hc, if_pos ((hcs c).1 hc)]
+      · rw [if_neg hc, if_neg (fun h => hc ((hcs c).2 h))]
+        exact (hloc c).wk
+
 end Tickit.Det
